@@ -3,8 +3,10 @@ mod gen;
 mod hist;
 mod mem;
 mod model;
+mod prog;
 mod row;
 mod rules;
+mod scn;
 mod spec;
 mod thr;
 mod util;
@@ -52,6 +54,7 @@ fn main() {
         "hist" => hist::run(&tier, seed),
         "thr" => thr::run(&tier, seed),
         "row" => row::run(&tier, seed),
+        "scn" => scn::run(&tier, seed),
         _ => {
             eprintln!("unknown engine {engine}");
             std::process::exit(2);
